@@ -148,6 +148,26 @@ def main_clause(cl, rng, n, replay):
                     and np.array_equal(_silent(ses.clarity, f, mc, sc, fn_std, search_range_in_hz=sr, verbose=v), gc)):
                 cl.fail("hvsrpy.sesame", "verdict depends on the verbosity", signature="sesame:verbose")
                 return
+        # the verdicts are about the curves as they are *now*: the same array objects rewritten in place with another curve (re-used buffers, the next site of a batch)
+        # and assessed again with the same search range
+        if j % 2 == 0:
+            mc[:] = mc[::-1].copy()
+            sc[:] = sc[::-1].copy()
+            wr2, wc2 = spec_reliability(lw, nw, f, mc, sc, sr), spec_clarity(f, mc, sc, fn_std, sr)
+            if not (wr2 is None or wc2 is None or wr2[1] or wc2[1]):
+                try:
+                    gr2 = _silent(ses.reliability, lw, nw, f, mc, sc, search_range_in_hz=sr, verbose=0)
+                    gc2 = _silent(ses.clarity, f, mc, sc, fn_std, search_range_in_hz=sr, verbose=0)
+                except Exception as ex:
+                    cl.fail("hvsrpy.sesame", f"{type(ex).__name__}: {ex} (same arrays rewritten in place)", signature="sesame:exception-reuse")
+                    return
+                cl.case((j, "same arrays rewritten in place"))
+                if not (np.array_equal(gr2, wr2[0]) and np.array_equal(gc2, wc2[0])):
+                    cl.fail("hvsrpy.sesame.clarity", f"after the same arrays were rewritten in place with another curve: verdicts {gr2.tolist()} / {gc2.tolist()} differ from the "
+                            f"guideline {wr2[0].tolist()} / {wc2[0].tolist()} for the curve they hold now", signature="sesame:buffer-reuse", frequency=f, mean_curve=mc, std_curve=sc, search_range=sr)
+                    return
+            mc[:] = mc[::-1].copy()
+            sc[:] = sc[::-1].copy()
         g2 = _silent(ses.reliability, lw * 2, nw + 7, f, mc, sc, search_range_in_hz=sr, verbose=0)
         c2 = _silent(ses.clarity, f, mc, sc, fn_std / 3, search_range_in_hz=sr, verbose=0)
         if (gr[1] == 1 and g2[1] != 1) or (gc[4] == 1 and c2[4] != 1):
